@@ -1,104 +1,28 @@
-import MuduoVerif.Model.Loop
+import MuduoVerif.Proofs.LoopBase
 /-!
-# Lemmas about the `Loop` transition system: frame lemmas and the FIFO invariant (C04 `once_fifo`)
+# The FIFO invariant of the functor queue (C04 `once_fifo`) and the ties of C04 to the generated definitions
 -/
 namespace MuduoVerif.Loop
 open MuduoVerif.Gen.Loop
 
-/-! ## the T1 tie: what the proofs need from the generated definitions -/
+/-! ## the T1 tie: what the C04 proofs need from the generated definitions -/
 
 theorem wakeGuard_foreign (c l : Bool) : wakeGuard false c l := by unfold wakeGuard; simp
 theorem wakeGuard_calling (b l : Bool) : wakeGuard b true l := by unfold wakeGuard; simp
 theorem wakeGuard_notLooping (b c : Bool) : wakeGuard b c false := by unfold wakeGuard; simp
 theorem runInline_loop : runInline true := by unfold runInline; simp
 theorem runInline_foreign : ¬ runInline false := by unfold runInline; simp
-theorem quitWakes_foreign : quitWakes false := by unfold quitWakes; simp
-theorem quitWakes_loop : ¬ quitWakes true := by unfold quitWakes; simp
 theorem drainSwaps_tie : drainSwaps = true := rfl
-theorem quitResetAtEntry_tie : quitResetAtEntry = false := rfl
-theorem quitResetAtExit_tie : quitResetAtExit = true := rfl
 theorem finalDrain_tie : finalDrain = true := rfl
 theorem callingResetAfterRun_tie : callingResetAfterRun = true := rfl
-theorem dtorLocks_tie : dtorLocks = true := rfl
-theorem dtorJoinsIfStarted_tie : dtorJoinsIfStarted = true := rfl
-theorem publishNotifies_tie : publishNotifies = true := rfl
-theorem clearLocks_tie : clearLocks = true := rfl
-theorem startWaitsWhile_tie : startWaitsWhile = true := rfl
-/-- the parts of the code's shape that the model takes for granted (not parameters of `step`) -/
-theorem shape_tie : quitStoresFirst = true ∧ whileTestsQuit = true ∧ drainEachIteration = true ∧
-    loopingBracket = true ∧ callingSetBeforeSwap = true ∧ appendUnderLock = true ∧ publishLocks = true :=
-  ⟨rfl, rfl, rfl, rfl, rfl, rfl, rfl⟩
+/-- the parts of the code's shape that the model of the functor queue takes for granted (not parameters of `step`) -/
+theorem shape_tie : drainEachIteration = true ∧ loopingBracket = true ∧ callingSetBeforeSwap = true ∧
+    appendUnderLock = true := ⟨rfl, rfl, rfl, rfl⟩
 
 /-- bring the ties into the context of a case analysis -/
 macro "ties" : tactic => `(tactic| (
-  have := drainSwaps_tie; have := quitResetAtEntry_tie; have := quitResetAtExit_tie; have := finalDrain_tie
-  have := callingResetAfterRun_tie; have := dtorLocks_tie; have := dtorJoinsIfStarted_tie
-  have := publishNotifies_tie; have := clearLocks_tie; have := startWaitsWhile_tie
-  have := runInline_loop; have := runInline_foreign; have := quitWakes_foreign; have := quitWakes_loop))
-
-/-! ## frame lemmas -/
-
-section touch
-variable (s : St) (d : Bool)
-@[simp] theorem touch_pending : (touch s d).pending = s.pending := by unfold touch; split <;> (try split) <;> rfl
-@[simp] theorem touch_appendOrder : (touch s d).appendOrder = s.appendOrder := by unfold touch; split <;> (try split) <;> rfl
-@[simp] theorem touch_executed : (touch s d).executed = s.executed := by unfold touch; split <;> (try split) <;> rfl
-@[simp] theorem touch_batch : (touch s d).batch = s.batch := by unfold touch; split <;> (try split) <;> rfl
-@[simp] theorem touch_phase : (touch s d).phase = s.phase := by unfold touch; split <;> (try split) <;> rfl
-@[simp] theorem touch_ev : (touch s d).ev = s.ev := by unfold touch; split <;> (try split) <;> rfl
-@[simp] theorem touch_quit : (touch s d).quit = s.quit := by unfold touch; split <;> (try split) <;> rfl
-@[simp] theorem touch_qreq : (touch s d).qreq = s.qreq := by unfold touch; split <;> (try split) <;> rfl
-@[simp] theorem touch_selfQuit : (touch s d).selfQuit = s.selfQuit := by unfold touch; split <;> (try split) <;> rfl
-@[simp] theorem touch_quitMark : (touch s d).quitMark = s.quitMark := by unfold touch; split <;> (try split) <;> rfl
-@[simp] theorem touch_calling : (touch s d).calling = s.calling := by unfold touch; split <;> (try split) <;> rfl
-@[simp] theorem touch_looping : (touch s d).looping = s.looping := by unfold touch; split <;> (try split) <;> rfl
-@[simp] theorem touch_lpc : (touch s d).lpc = s.lpc := by unfold touch; split <;> (try split) <;> rfl
-@[simp] theorem touch_stack : (touch s d).stack = s.stack := by unfold touch; split <;> (try split) <;> rfl
-@[simp] theorem touch_thr : (touch s d).thr = s.thr := by unfold touch; split <;> (try split) <;> rfl
-@[simp] theorem touch_elt : (touch s d).elt = s.elt := by unfold touch; split <;> (try split) <;> rfl
-@[simp] theorem touch_alive : (touch s d).alive = s.alive := by unfold touch; split <;> (try split) <;> rfl
-@[simp] theorem touch_loopPtr : (touch s d).loopPtr = s.loopPtr := by unfold touch; split <;> (try split) <;> rfl
-@[simp] theorem touch_mtx : (touch s d).mtx = s.mtx := by unfold touch; split <;> (try split) <;> rfl
-@[simp] theorem touch_waiting : (touch s d).waiting = s.waiting := by unfold touch; split <;> (try split) <;> rfl
-@[simp] theorem touch_final : (touch s d).final = s.final := by unfold touch; split <;> (try split) <;> rfl
-@[simp] theorem touch_ioReady : (touch s d).ioReady = s.ioReady := by unfold touch; split <;> (try split) <;> rfl
-@[simp] theorem touch_active : (touch s d).active = s.active := by unfold touch; split <;> (try split) <;> rfl
-@[simp] theorem touch_L : (touch s d).L = s.L := by unfold St.L; simp
-@[simp] theorem touch_markOf : markOf (touch s d) = markOf s := by unfold markOf; simp
-theorem touch_uafDtor_false : (touch s false).uafDtor = s.uafDtor := by unfold touch; split <;> rfl
-theorem touch_uafDtor_true : (touch s true).uafDtor = (s.uafDtor || !s.alive) := by
-  unfold touch; split <;> simp_all
-end touch
-
-section setThr
-variable (s : St) (k : Nat) (t : FThread)
-@[simp] theorem setThr_pending : (setThr s k t).pending = s.pending := rfl
-@[simp] theorem setThr_appendOrder : (setThr s k t).appendOrder = s.appendOrder := rfl
-@[simp] theorem setThr_executed : (setThr s k t).executed = s.executed := rfl
-@[simp] theorem setThr_batch : (setThr s k t).batch = s.batch := rfl
-@[simp] theorem setThr_phase : (setThr s k t).phase = s.phase := rfl
-@[simp] theorem setThr_ev : (setThr s k t).ev = s.ev := rfl
-@[simp] theorem setThr_quit : (setThr s k t).quit = s.quit := rfl
-@[simp] theorem setThr_qreq : (setThr s k t).qreq = s.qreq := rfl
-@[simp] theorem setThr_selfQuit : (setThr s k t).selfQuit = s.selfQuit := rfl
-@[simp] theorem setThr_quitMark : (setThr s k t).quitMark = s.quitMark := rfl
-@[simp] theorem setThr_calling : (setThr s k t).calling = s.calling := rfl
-@[simp] theorem setThr_looping : (setThr s k t).looping = s.looping := rfl
-@[simp] theorem setThr_lpc : (setThr s k t).lpc = s.lpc := rfl
-@[simp] theorem setThr_stack : (setThr s k t).stack = s.stack := rfl
-@[simp] theorem setThr_elt : (setThr s k t).elt = s.elt := rfl
-@[simp] theorem setThr_alive : (setThr s k t).alive = s.alive := rfl
-@[simp] theorem setThr_loopPtr : (setThr s k t).loopPtr = s.loopPtr := rfl
-@[simp] theorem setThr_mtx : (setThr s k t).mtx = s.mtx := rfl
-@[simp] theorem setThr_waiting : (setThr s k t).waiting = s.waiting := rfl
-@[simp] theorem setThr_final : (setThr s k t).final = s.final := rfl
-@[simp] theorem setThr_ioReady : (setThr s k t).ioReady = s.ioReady := rfl
-@[simp] theorem setThr_active : (setThr s k t).active = s.active := rfl
-@[simp] theorem setThr_uafDtor : (setThr s k t).uafDtor = s.uafDtor := rfl
-@[simp] theorem setThr_thr_self : (setThr s k t).thr k = t := by simp [setThr]
-theorem setThr_thr_ne {j : Nat} (h : j ≠ k) : (setThr s k t).thr j = s.thr j := by simp [setThr, h]
-theorem setThr_thr (j : Nat) : (setThr s k t).thr j = if j = k then t else s.thr j := rfl
-end setThr
+  have := drainSwaps_tie; have := finalDrain_tie; have := callingResetAfterRun_tie
+  have := runInline_loop; have := runInline_foreign))
 
 /-! ## `once_fifo` -/
 
@@ -125,30 +49,12 @@ theorem runTop_fifo {s : St} (h : FifoInv s) : FifoInv (runTop s) := by
     · exact ⟨h1, h2⟩
     · exact ⟨h1, h2⟩
 
-/-- unfold one step of the loop thread into its branches (task bodies stay behind `runTop`) -/
-macro "loop_cases" : tactic => `(tactic| (
-  unfold stepLoop
-  split
-  all_goals (try simp only [testQuit, leaveLoop, enterLoop])
-  all_goals (repeat' split)))
-
 theorem stepLoop_fifo {s : St} (h : FifoInv s) : FifoInv (stepLoop s) := by
   have hr := runTop_fifo h
   obtain ⟨h1, h2⟩ := h
   ties
   loop_cases
   all_goals (first | assumption | (constructor <;> simp_all))
-
-/-- unfold one step of another thread into its branches -/
-macro "other_cases" : tactic => `(tactic| (
-  unfold stepOther
-  split
-  all_goals (try simp only [stepIdle, stepAppended, stepQuitStored, stepSCheck, stepSWaiting, stepDEntry,
-    stepDStored, stepDJoin])
-  all_goals (try split)
-  all_goals (try split)
-  all_goals (try split)
-  all_goals (try simp only [doAppend, doQuitStore, doWake, silent])))
 
 theorem stepOther_fifo {s : St} (k : Nat) (h : FifoInv s) : FifoInv (stepOther s k) := by
   obtain ⟨h1, h2⟩ := h
@@ -168,5 +74,18 @@ theorem run_fifo {s : St} (sched : List Nat) (h : FifoInv s) : FifoInv (run s sc
 
 theorem init_fifo (elt wl : Bool) (tbl) (pre) (progs) : FifoInv (init elt wl tbl pre progs) := by
   constructor <;> simp [init]
+
+/-! ## task bodies start on the loop thread only -/
+
+theorem step_wrongThread {s : St} (k : Nat) (h : s.wrongThread = false) : (step s k).wrongThread = false := by
+  have hr : (runTop s).wrongThread = false := by
+    unfold runTop; repeat' split
+    all_goals exact h
+  have := runInline_foreign
+  unfold step; split
+  · loop_cases
+    all_goals (first | exact hr | exact h)
+  · other_cases
+    all_goals (first | exact h | (simp_all [touch]; done) | (simp [touch]; split <;> (try split) <;> exact h))
 
 end MuduoVerif.Loop
